@@ -50,6 +50,55 @@ def int_range(fmt_char):
     return 0, (1 << (8 * size)) - 1
 
 
+def joinf(sep, seq):
+    return ufun('join', StringSort, z3.SeqSort(StringSort), StringSort)(sep, seq)
+
+
+class SplitFacts:
+    """Trusted model of  L = s.split(sep)  (sep constant, non-empty), as facts over
+       P(k) = L[0].sep. ... .L[k-1].sep   (the text consumed by the first k parts):
+         step(k):    P(k+1) == P(k).L[k].sep                       (0 <= k < n-1)
+         suffix(k):  s == P(k).join(sep, B)  where L == A.B, |A| = k  (0 <= k <= n-1)
+         join(sep, [x]) == x ,  P(0) == ''
+       Instantiated at index terms on request (no quantifier reaches the solver); decompositions
+       are word equations with fresh sequence constants, not seq.extract."""
+    def __init__(self, ctx, s, sep, L):
+        self.ctx, self.s, self.sep, self.L = ctx, s, sep, L
+        self.P = z3.Function('splitP!%d' % len(ctx.splits), IntSort, StringSort)
+        self.n = z3.Length(L)
+        self.done = set()
+        ctx.assume(self.P(z3.IntVal(0)) == z3.StringVal(''))
+
+    def step(self, k):
+        k = z3.simplify(k)
+        if ('s', k.get_id()) in self.done:
+            return
+        self.done.add(('s', k.get_id()))
+        self.ctx.keep.append(k)
+        L, n, P = self.L, self.n, self.P
+        self.ctx.assume(z3.Implies(z3.And(k >= 0, k < n - 1), P(k + 1) == z3.Concat(P(k), L[k], self.sep)))
+
+    def suffix(self, k):
+        k = z3.simplify(k)
+        if ('x', k.get_id()) in self.done:
+            return
+        self.done.add(('x', k.get_id()))
+        self.ctx.keep.append(k)
+        ctx, L, n, P = self.ctx, self.L, self.n, self.P
+        A = ctx.fresh('split_A', L.sort())
+        B = ctx.fresh('split_B', L.sort())
+        ctx.decomps.register(L, A, B, k, z3.And(k >= 0, k <= n - 1))
+        ctx.assume(z3.Implies(z3.And(k >= 0, k <= n - 1),
+                              z3.And(L == z3.Concat(A, B), z3.Length(A) == k,
+                                     self.s == z3.Concat(P(k), joinf(self.sep, B)),
+                                     z3.Implies(z3.Length(B) == 1, joinf(self.sep, B) == B[0]))),
+                   defines=[A, B])
+
+    def at(self, k):
+        self.step(k)
+        self.suffix(k)
+
+
 class Models:
     def __init__(self, world):
         self.world = world
@@ -294,7 +343,7 @@ class Models:
     def m_enumerate(self, I, a):
         items = I.iter_items(a[0])
         if items is None:
-            raise OutOfSubset('enumerate over symbolic sequence')
+            return VEnum(I.as_list(a[0]))
         return VTuple([VTuple([VInt(i), x]) for i, x in enumerate(items)])
 
     def m_set(self, I, a, k):
@@ -309,6 +358,17 @@ class Models:
 
     # ------------------------------------------------------------ struct / codecs / binascii
     def split_fmt(self, I, fmt):
+        t = z3.simplify(fmt.term)
+        if (not z3.is_string_value(t) and z3.is_app(t) and t.decl().kind() == z3.Z3_OP_SEQ_CONCAT
+                and t.num_args() == 2 and z3.is_string_value(t.arg(1))):
+            # <symbolic byte-order char> + 'I': split on the two byte orders txdbus uses; any other
+            # value of the prefix is outside the model (that path is reported out of subset)
+            pre = t.arg(0)
+            k = I.ctx.choose([pre == z3.StringVal('<'), pre == z3.StringVal('>'),
+                              z3.And(pre != z3.StringVal('<'), pre != z3.StringVal('>'))])
+            if k == 2:
+                raise OutOfSubset('struct format with a byte-order prefix other than < or >')
+            fmt = VStr('<>'[k] + z3_unescape(t.arg(1).as_string()))
         f = I.concrete_str(fmt)
         if len(f) == 2 and f[0] in '<>' and f[1] in FMT:
             return f[0] == '<', f[1]
@@ -341,6 +401,9 @@ class Models:
         return VInt(t)
 
     def m_unpack(self, I, a, k):
+        f0 = z3.simplify(a[0].term)
+        if z3.is_string_value(f0) and not (len(f0.as_string()) == 2 and f0.as_string()[0] in '<>'):
+            return VOpaque('struct.unpack(%s)' % f0.as_string())      # e.g. '3i' peer credentials: not looked into
         le, ch = self.split_fmt(I, a[0])
         b = a[1]
         size = FMT[ch][0]
@@ -511,14 +574,29 @@ class Models:
             return type(sep)(S.concat(parts))
         return self.join_symbolic(I, sep, seq)
 
-    def join_symbolic(self, I, sep, seq):
-        raise OutOfSubset('join over a symbolic sequence')
 
     def meth_str_split(self, I, s, *a):
         return self.split_model(I, s, a)
 
     def split_model(self, I, s, a):
-        raise OutOfSubset('str.split')
+        """bytes/str.split(sep) with a constant non-empty separator: a fresh list L with
+        the trusted facts of pyvc.models.SplitFacts (instantiated on demand)."""
+        if len(a) != 1 or not S.is_const(a[0].term) or S.const_of(a[0].term) == '':
+            raise OutOfSubset('split() form')
+        ctx = I.ctx
+        L = ctx.fresh('split_L', z3.SeqSort(StringSort))
+        ctx.assume(z3.Length(L) >= 1)
+        rec = SplitFacts(ctx, s.term, a[0].term, L)
+        ctx.splits.append(rec)
+        return VList(BYTES if isinstance(s, VBytes) else STR, [L], origin=('local',))
+
+    def join_symbolic(self, I, sep, seq):
+        lst = I.as_list(seq)
+        t = lst.seqs[0]
+        r = joinf(sep.term, t)
+        # join(sep, [x]) == x
+        I.ctx.assume(z3.Implies(z3.Length(t) == 1, r == t[0]))
+        return type(sep)(r) if isinstance(sep, VBytes) else VStr(r)
 
     def meth_str_format(self, I, s, *a, **k):
         return VOpaque('format')
@@ -641,12 +719,24 @@ class Models:
         n = l.length()
         if not I.ctx.branch(n > 0):
             I.raise_py(IndexError)
+        ctx = I.ctx
         if not a or (I.is_concrete_int(a[0]) and I.concrete_int(a[0]) == -1):
             v = I.list_nth(l, n - 1)
-            l.seqs = [z3.SubSeq(q, 0, n - 1) for q in l.seqs]
+            parent = list(l.seqs)
+            new = [ctx.fresh('pop_rest', q.sort()) for q in parent]
+            for q, r, t in zip(parent, new, v.terms() if not isinstance(v, VNone) else []):
+                ctx.assume(q == z3.Concat(r, z3.Unit(t)))
+                ctx.decomps.register(q, r, z3.Unit(t), z3.Length(q) - 1)
+            l.view = (parent, z3.IntVal(0)) if getattr(l, 'view', None) is None else l.view
+            l.seqs = new
         elif I.is_concrete_int(a[0]) and I.concrete_int(a[0]) == 0:
             v = I.list_nth(l, z3.IntVal(0))
-            l.seqs = [z3.SubSeq(q, 1, n - 1) for q in l.seqs]
+            parent = list(l.seqs)
+            new = [ctx.fresh('pop_rest', q.sort()) for q in parent]
+            for q, r, t in zip(parent, new, v.terms()):
+                ctx.assume(q == z3.Concat(z3.Unit(t), r))
+            l.view = None
+            l.seqs = new
         else:
             raise OutOfSubset('list.pop(i)')
         I.ctx.writeback(l)
@@ -756,11 +846,25 @@ class Models:
         raise OutOfSubset('comprehension over a symbolic sequence')
 
     def list_slice(self, I, l, lo, hi):
+        """l[lo:] as a word equation  l == A.R, |A| = lo  (needs 0 <= lo <= len provable)."""
         n = l.length()
         lo_t = lo.term if lo else z3.IntVal(0)
-        if hi is None:
+        if hi is not None:
+            raise OutOfSubset('list slice with upper bound')
+        ctx = I.ctx
+        if ctx.feasible(z3.Not(z3.And(lo_t >= 0, lo_t <= n))):
             return VList(l.t, [z3.SubSeq(q, lo_t, n - lo_t) for q in l.seqs])
-        raise OutOfSubset('list slice with upper bound')
+        A = [ctx.fresh('lsl_A', q.sort()) for q in l.seqs]
+        R = [ctx.fresh('lsl_R', q.sort()) for q in l.seqs]
+        for q, x, r in zip(l.seqs, A, R):
+            ctx.assume(q == z3.Concat(x, r))
+            ctx.assume(z3.Length(x) == lo_t)
+            ctx.decomps.register(q, x, r, lo_t)
+        out = VList(l.t, R)
+        view = getattr(l, 'view', None)
+        if view is not None:
+            out.view = (view[0], view[1] + lo_t)
+        return out
 
     def set_diff(self, I, a, b):
         raise OutOfSubset('set difference')
@@ -781,6 +885,9 @@ class Models:
         return I.ctx.new_ref(name)
 
     def instantiate(self, I, cls, args, kwargs):
+        m = self.function_model(cls)           # builtins that are types: int, str, list, zip, enumerate ...
+        if m is not None:
+            return m(I, args, kwargs)
         if cls in self.instantiators:
             return self.instantiators[cls](I, args, kwargs)
         if isinstance(cls, type) and issubclass(cls, BaseException):
